@@ -68,7 +68,9 @@ func convertToUuidBytes(source interface{}) (val []byte, err error) {
 			val = s.Bytes()
 		}
 	case []byte:
-		if len(s) != primitive.LengthOfUuid {
+		if s == nil {
+			// a nil slice is a CQL NULL
+		} else if len(s) != primitive.LengthOfUuid {
 			err = errWrongFixedLength(primitive.LengthOfUuid, len(s))
 		} else {
 			val = s
